@@ -35,6 +35,11 @@ pub struct SvgElement {
     pub src_line: usize,
     pub event_range: Option<(usize, usize)>,
     pub content_bbox: Option<BoundingBox>,
+    /// Have the attribute values been evaluated? (An attribute is evaluated once: what
+    /// its variables and expressions gave is not looked at for more of them.)
+    pub evaluated: bool,
+    /// ... and the `id`, which is evaluated ahead of the others
+    pub id_evaluated: bool,
 }
 
 impl Display for SvgElement {
@@ -201,6 +206,8 @@ impl SvgElement {
             src_line: 0,
             event_range: None,
             content_bbox: None,
+            evaluated: false,
+            id_evaluated: false,
         }
     }
 
@@ -299,8 +306,12 @@ impl SvgElement {
 
         // Standard comment: expressions & variables are evaluated.
         if let Some(comment) = self.get_attr("_") {
-            // Expressions in comments are evaluated
-            let value = eval_attr(&comment, ctx)?;
+            // Expressions in comments are evaluated (with the other attributes, if
+            // they have been)
+            let value = match self.evaluated {
+                true => comment,
+                false => eval_attr(&comment, ctx)?,
+            };
             events.push(OutputEvent::Comment(format!(" {value} ")));
             events.push(OutputEvent::Text(format!("\n{}", " ".repeat(self.indent))));
         }
@@ -547,10 +558,13 @@ impl SvgElement {
 
     /// Resolve any expressions in attributes.
     pub fn eval_attributes(&mut self, ctx: &impl ContextView) -> Result<()> {
+        if self.evaluated {
+            return Ok(());
+        }
         // Resolve any attributes
         for (key, value) in self.attrs.clone() {
-            if key == "__" {
-                // Raw comments are not evaluated
+            if key == "__" || (key == "id" && self.id_evaluated) {
+                // Raw comments are not evaluated (and the id has been already)
                 continue;
             }
             let replace = eval_attr(&value, ctx)?;
@@ -560,6 +574,7 @@ impl SvgElement {
         for class in &self.classes.clone() {
             self.classes.replace(class, eval_attr(class, ctx)?);
         }
+        self.evaluated = true;
 
         Ok(())
     }
